@@ -273,6 +273,16 @@ def step (st : St) (line : String) : St × String :=
         | some ents => toString (sameAssocB (flatSubs subs) (entsInt ents))
         | none => "no-such-revision")
     | _, _ => (st, "bad-op")
+  | ["q.streamlists", k, index, rows] =>
+    -- hypotheses of C02_stream_lists for (sub-)revision k of the written file and the rows of its stream
+    match k.toNat?, csvNat index, (if rows == "-" then some [] else (rows.splitOn ",").mapM parseRow) with
+    | some k, some ia, some rows =>
+      let f : WFile := ⟨0, st.wobjs, st.wtrs⟩
+      let ranges := choplist2 ia
+      (st, match f.ents[k]? with
+        | some ents => s!"{streamListsB ranges rows ents} {decide (sumCounts ranges ≤ rows.length)}"
+        | none => "no-such-revision")
+    | _, _, _ => (st, "bad-op")
   | ["q.tail", ts, eol, w, n] =>
     let eol? : Option LineEol := if eol == "lf" then some .lf else if eol == "crlf" then some .crlf else if eol == "cr" then some .cr else none
     let ts? : Option TailStyle := if ts == "normal" then some .plain else if ts == "noeol" then some .noeol
